@@ -182,14 +182,19 @@ CHECKS = {
         "quick": [
             {"pkg": "v2", "entries": ["VerifC13Patch"], "params": {"PLEN": 1, "RM": 2, "AD": 2}},
             {"pkg": "v2", "entries": ["VerifC13Patch"], "params": {"PLEN": 2, "RENDER": 1}},
+            {"pkg": "v2", "entries": ["VerifC13ReadDiff", "VerifC13ReadMerge"], "params": {"LINES": 2}},
+            {"pkg": "v2", "entries": ["VerifC13ReadPatch"], "params": {"OPS": 2, "PTRS": 8}},
         ],
         "thorough": [
             {"pkg": "v2", "entries": ["VerifC13Patch"], "params": {"PLEN": 2, "RM": 2, "AD": 2}},
             {"pkg": "v2", "entries": ["VerifC13Patch"], "params": {"PLEN": 2, "RENDER": 1}},
+            {"pkg": "v2", "entries": ["VerifC13ReadDiff", "VerifC13ReadMerge"], "params": {"LINES": 3}},
+            {"pkg": "v2", "entries": ["VerifC13ReadPatch"], "params": {"OPS": 2}},
+            {"pkg": "v2", "entries": ["VerifC13ReadPatch"], "params": {"OPS": 3, "PTRS": 4}},
         ],
-        "covers": ["c13.patch"],
+        "covers": ["c13.patch", "c13.readdiff", "c13.readpatch", "c13.readmerge"],
         "outside": "raw byte-level text inside encoding/json, yaml.v2 and jsonpointer (assumed to return a value of the documented shape or an error and not to panic); paths longer than PLEN; the CLI process",
-        "level_note": "PARTIAL claim (DESIGN.md section 7): decided is jd's own code on structurally valid diffs with arbitrary paths (any finite float index) against arbitrary small targets, and the readers on every line/op structure with arbitrary decode outcomes; byte-level behaviour of the third-party parsers is assumed, not checked. Trusted: gosym interpreter (validated by native replay of sampled paths), SMT solvers, hash/codec models.",
+        "level_note": "PARTIAL claim (DESIGN.md section 7): decided is jd's own code on structurally valid diffs with arbitrary paths (any finite float index) against arbitrary small targets, and the three readers on every line / operation structure (symbolic header byte per line, payloads and pointers from adversarial menus incl. undecodable text) followed by Patch on five targets and the three renderers; byte-level behaviour of the third-party parsers is assumed, not checked. Trusted: gosym interpreter (validated by native replay of sampled paths), SMT solvers, hash/codec models.",
     },
     "C03": {
         "quick": [
